@@ -363,6 +363,8 @@ def run(ctx):
     ctx.rule("shape/capture-roundtrip", "per captured document shape, all content octets symbolic: serialise -> parse restores every token id / value / attribute, and re-serialising gives the same bytes")
     ctx.rule("shape/inline-constant-table", "the same for the document id WITH constant table: empty, 1-octet and 3-octet (symbolic) inline tables")
     ctx.rule("buffer/several-documents", "2 and 3 documents in one buffer parse into exactly those documents (announced lengths consumed exactly)")
+    ctx.rule("table/document-kind", "every LRRP document id is parsed with the element-token table of its kind: ...Request documents with the request tokens, ...Report / ...Answer documents with the answer-and-report tokens (constant evaluation of get_configuration per id)")
+    ctx.rule("api/token-pairs", "a document holding the same attribute-bearing token twice (with / without attributes, both orders, twice with attributes) parses back into two tokens each with exactly its own attributes")
     ctx.rule("api/token-roundtrip", "a document holding one token obtained through get_token (every implemented token, every attribute choice, symbolic content, boundary numbers) serialises to bytes that parse back into the same token id, value and attributes")
     ctx.rule("api/long-body", "documents whose body needs a two-octet length (128 octets and more) keep their boundaries")
     ctx.rule("api/lookup-stable", "in one process history (parse request, parse report, look every token up twice) get_token keeps returning the table entry for the id and the class-level tables are unchanged")
@@ -413,6 +415,7 @@ def run(ctx):
         with ctx.guard("several documents"):
             roundtrip_docs(ctx, repo, mb, build3, " + ".join(r[:5].hex() + "…" for r in g), "buffer/several-documents", fb.loc, max_paths=128)
     api_rules(ctx, repo, mb, lrrp, docid, implemented, attrs)
+    doc_table_rules(ctx, repo, lrrp, docid)
     lookup_stability(ctx, repo, mb, lrrp, raws)
     ctx.require("table/reader-writer-agree", 45)
     ctx.require("shape/capture-roundtrip", 8)
@@ -484,6 +487,44 @@ def mk_doc(I, repo, lrrp, docid, name):
     return I.construct(lrrp, [], {"document_id": member})
 
 
+def doc_table_rules(ctx, repo, lrrp, docid):
+    """which element-token table a document id is parsed with: request documents with the request table, reports and answers with
+    the answer / report table (the document's own name says which it is)"""
+    gc = repo.find_method(lrrp, "get_configuration")
+    if gc is None:
+        raise AnalysisError("LRRP.get_configuration not found")
+    ctx.saw_func(gc)
+    req = set(repo.class_const(lrrp, "QUERY_REQUEST_MESSAGES_ELEMENT_TOKENS"))
+    rep = set(repo.class_const(lrrp, "ANSWER_AND_REPORT_MESSAGES_ELEMENT_TOKENS"))
+    only_req, only_rep = req - rep, rep - req
+    n = 0
+    for name, mem in repo.enum_members(docid).items():
+        if not name.startswith("LRRP_"):
+            continue
+        kind = "request" if "Request" in name else ("report" if ("Report" in name or "Answer" in name) else None)
+        if kind is None:
+            continue
+        I = mk_interp(repo)
+
+        def run_c(st, mem=mem):
+            I.st = st
+            return I.call(gc, [mem], {})
+        res = explore(run_c, max_paths=8)
+        if len(res) != 1 or res[0][1][0] != "ok" or not isinstance(res[0][1][1], dict):
+            raise AnalysisError(f"get_configuration({name}): " + "; ".join(f"{k}:{v}" for _, (k, v) in res)[:200])
+        cfg = res[0][1][1]
+        elems = next((v for k, v in cfg.items() if getattr(k, "name", "") in ("ELEMENT", "ELEMENTS", "Element") or "ELEMENT" in str(getattr(k, "name", k)).upper()), None)
+        if not isinstance(elems, dict):
+            raise AnalysisError(f"get_configuration({name}): no element-token table in the result")
+        keys = set(elems)
+        n += 1
+        want, other = (only_req, only_rep) if kind == "request" else (only_rep, only_req)
+        ok = want <= keys and not (other & keys)
+        ctx.ob("table/document-kind", f"{name} ({mem.value[0] if isinstance(mem.value, tuple) else mem.value!r})", ok,
+               f"a {kind} document parsed with {len(keys)} element tokens: {len(want & keys)}/{len(want)} of the {kind}-only tokens, {len(other & keys)} tokens of the other kind", gc.loc)
+    ctx.coverage("table/document-kind", "LRRP document ids", n, 12, f"{n} document ids evaluated", gc.loc)
+
+
 def api_rules(ctx, repo, mb, lrrp, docid, implemented, attrs):
     gt = repo.find_method(lrrp, "get_token")
     ctx.saw_func(gt)
@@ -508,6 +549,32 @@ def api_rules(ctx, repo, mb, lrrp, docid, implemented, attrs):
                     key = f"{'request' if is_request else 'report'} {tid:#04x} {rec.fields['name']} ({rec.fields['_type'].name}) | value {vlabel} | {alabel}"
                     with ctx.guard(key):
                         roundtrip_docs(ctx, repo, mb, build, key, "api/token-roundtrip", gt.loc)
+    # two elements in one document: every token that can carry attributes, once with and once without them (and in the other
+    # order) — what the reader collected for the first element must not leak into the second
+    for (tn, tid), rec in sorted(implemented.items()):
+        choices = [c for c in attr_choices(rec, attrs)]
+        with_a = [c for c in choices if c[1]]
+        if not with_a:
+            continue
+        is_request = tn.startswith("QUERY")
+        I0 = mk_interp(repo)
+        vlabel = sample_values(I0, rec)[0][0]
+        orders = [("twice with attributes", (with_a[0][1], with_a[-1][1]))]
+        if any(not c[1] for c in choices):     # leaving the attributes out is a valid document for this token
+            orders += [("with attributes, then without", (with_a[0][1], {})), ("without attributes, then with", ({}, with_a[0][1]))]
+        for order, (first, second) in orders:
+            def build_pair(I, rec=rec, tid=tid, vlabel=vlabel, first=first, second=second, is_request=is_request):
+                d = mk_doc(I, repo, lrrp, docid, REQUEST_DOC if is_request else REPORT_DOC)
+                for adict in (first, second):
+                    thunk = dict(sample_values(I, rec))[vlabel]
+                    t = I.call(gt, [L, tid, thunk(), dict(adict)], {"is_request": is_request})
+                    if not isinstance(t, AObj):
+                        raise Abort(f"get_token returns {t!r}")
+                    d.attrs["parts"].append(t)
+                return [d], None
+            key = f"{'request' if is_request else 'report'} {tid:#04x} {rec.fields['name']} x 2 | {order}"
+            with ctx.guard(key):
+                roundtrip_docs(ctx, repo, mb, build_pair, key, "api/token-pairs", gt.loc)
     # token types that only one of reader / writer mentions: the writer must reject the token (any exception), or the round trip must work
     for (tn, tid), rec in sorted(ctx.extra.pop("_one_sided", {}).items()):
         is_request = tn.startswith("QUERY") or tn == "COMMON_ELEMENT_TOKENS"
